@@ -16,8 +16,11 @@ SW = "PurgeByHost = %s SendTopology = %s CheckDuplicate = %s Rogue = TRUE"
 KINDS = {"KMem": {"A": ["p"], "G1": ["p", "q"], "G2": ["q"], "G3": []},
          "KAct": {"A": ["p"], "B": ["p", "q"], "C": []}, "KAct0": {"A": ["p"], "B": [], "C": []}}
 SETS = {"N1": ["A"], "N2": ["A", "B"], "N3": ["A", "B", "C"], "G3": ["G1", "G2", "G3"], "G2": ["G1", "G2"], "NoGhosts": [],
-        "KP": ["p"], "KPQ": ["p", "q"], "KPQR": ["p", "q", "r"], "I1": ["1"], "I2": ["1", "2"], "S0": [], "S1": ["x"],
+        "KP": ["p"], "KPQ": ["p", "q"], "KPQR": ["p", "q", "r"], "I1": ["1"], "I2": ["1", "2"], "IB": ["bulk"], "S0": [], "S1": ["x"],
         "UpA": ["A"], "UpAB": ["A", "B"], "UpABC": ["A", "B", "C"]}
+
+
+BULK = 1100
 
 
 def inst(nodes, ghosts, kindsof, akinds, aids, sids, initup, maxops, mode):
@@ -32,10 +35,13 @@ INST = {
     "act_3nodes_ops4": inst("N3", "NoGhosts", "KAct", "KPQ", "I1", "S1", "UpAB", 4, "activation"),
     "act_3nodes_ops3": inst("N3", "NoGhosts", "KAct", "KPQ", "I1", "S0", "UpAB", 3, "activation"),
     # a member that registered no kind at all still hosts cluster-spawned actors
+    # the id "bulk" stands for a block of BULK actors (more than one batch of anything): large topologies at a join
+    "act_3nodes_bulk": inst("N3", "NoGhosts", "KAct", "KP", "IB", "S0", "UpAB", 3, "activation"),
     "act_2nodes_kindless": inst("N2", "NoGhosts", "KAct0", "KP", "I1", "S1", "UpAB", 3, "activation"),
 }
 PLAN = {"C18": {"quick": ["mem_3ghosts_ops3"], "thorough": ["mem_3ghosts_ops4"]},
-        "C19": {"quick": ["act_2nodes_ops4", "act_3nodes_ops3", "act_2nodes_kindless"], "thorough": ["act_2nodes_ops5", "act_3nodes_ops4", "act_2nodes_kindless"]}}
+        "C19": {"quick": ["act_2nodes_ops4", "act_3nodes_ops3", "act_2nodes_kindless", "act_3nodes_bulk"],
+                "thorough": ["act_2nodes_ops5", "act_3nodes_ops4", "act_2nodes_kindless", "act_3nodes_bulk"]}}
 REGRESSION = {"C18": [], "C19": [((False, True, True), {"C19_Agreement"}), ((True, False, True), {"C19_Agreement"}), ((True, True, False), {"C19_Unique", "C19_Agreement"})]}
 
 
@@ -57,7 +63,8 @@ def harness_config(name):
     nodes, ghosts = SETS[i["nodes"]], SETS[i["ghosts"]]
     ids = [[k, x] for k in SETS[i["akinds"]] for x in SETS[i["aids"]]] + [["sp", x] for x in SETS[i["sids"]]]
     return {"nodes": nodes, "ghosts": ghosts, "kindsOf": {m: KINDS[i["kindsof"]].get(m, []) for m in nodes + ghosts},
-            "ids": ids, "kinds": sorted(set(SETS[i["akinds"]]) | {"q"}), "up": SETS[i["initup"]] if i["mode"] == "activation" else []}
+            "ids": ids, "kinds": sorted(set(SETS[i["akinds"]]) | {"q"}), "up": SETS[i["initup"]] if i["mode"] == "activation" else [],
+            "bulk": BULK if "bulk" in SETS[i["aids"]] else 0}
 
 
 def setof(v):
